@@ -32,7 +32,7 @@ def info(tier):
         "canonical matrix form of the drawn data; arrays at the linprog seam compared with that form; non-trivial = "
         ">=2 variables and >=1 row; distinct = canonical (recipe, method) hashes",
         "required_cells": [f"method:{m}" for m in METHODS] + [f"ref-status:{s}" for s in ("optimal", "infeasible", "unbounded")]
-        + ["sense:min", "sense:max", "solve:1", "solve:2", "solve:3", "history:flip-sense-same-object", "objective:deep-accumulation"],
+        + ["sense:min", "sense:max", "solve:1", "solve:2", "solve:3", "history:flip-sense-same-object", "objective:deep-accumulation", "sweep:vector-spellings", "sweep:block-spellings"],
         "assumptions": [
             "HiGHS (through SciPy) is the trusted LP solver on both sides; identical input arrays give identical verdicts",
             "generator self-check (written recipe == drawn data, exact) else inconclusive",
@@ -220,6 +220,20 @@ def run(ctx, rec):
     try:
         z = optyx.VectorVariable("x", 3, lb=0, ub=2)
         other = optyx.Problem().maximize(z.sum() + 1).subject_to(z[0] + 2 * z[1] <= 3)
+        i = 0
+        for form in L.VECTOR_FORMS:
+            for s_ in ("<=", ">=", "=="):
+                i += 1
+                if ctx.mine(i):
+                    for bare in (False, True):
+                        rec.cmp(1, "sweep:vector-spellings")
+                        run_model(L.form_lp(rng, form, s_, bare_objective=bare), METHODS[(i + ctx.shard) % len(METHODS)], rec, rng, seams, other)
+        for form in L.BLOCK_FORMS:
+            for s_ in ("<=", ">=", "=="):
+                i += 1
+                if ctx.mine(i):
+                    rec.cmp(1, "sweep:block-spellings")
+                    run_model(L.block_lp(rng, form, s_), METHODS[(i + ctx.shard) % len(METHODS)], rec, rng, seams, other)
         n = 0
         while n < N_RANDOM[ctx.tier] and not rec.out_of_time():
             kind = KINDS[n % len(KINDS)]
